@@ -31,7 +31,7 @@ type Stmt struct {
 	Raw     []byte    `json:"raw,omitempty"` // log: payload (repeated Rep times) instead of the synthetic one
 	Rep     int       `json:"rep,omitempty"`
 	Shared  bool      `json:"shared,omitempty"` // repeat: one actions map for all invocations
-	Empty   bool      `json:"empty,omitempty"` // sig: signalled with an empty message (t.Error(), t.Errorf(""), panic(""))
+	Empty   bool      `json:"empty,omitempty"`  // sig: signalled with an empty message (t.Error(), t.Errorf(""), panic(""))
 }
 
 // Cond is a condition on the measure of an earlier draw of the same scope.
